@@ -147,6 +147,8 @@ pub enum Keep {
     Last,
     /// bitset over ids (ids beyond the set are rejected)
     Bits(Vec<u64>),
+    /// the ids below `n % (len + 1)`: a prefix-shaped keep set
+    Prefix(u32),
 }
 
 impl Keep {
@@ -156,6 +158,7 @@ impl Keep {
             Keep::Nothing => false,
             Keep::One(k) => len > 0 && id == k % len as u32,
             Keep::Last => id as usize + 1 == len,
+            Keep::Prefix(n) => (id as u64) < (*n as u64 % (len as u64 + 1)),
             Keep::Bits(b) => {
                 let w = (id / 64) as usize;
                 w < b.len() && (b[w] >> (id % 64)) & 1 == 1
@@ -510,6 +513,7 @@ fn gen_keep(rng: &mut Rng, c: &RegCfg) -> Keep {
         1 => Keep::Nothing,
         2 | 3 => Keep::One(rng.next_u64() as u32),
         4 => Keep::Last,
+        5 => Keep::Prefix(rng.next_u64() as u32),
         _ => {
             let mut bits = vec![0u64; 8];
             for id in 0..512 {
